@@ -228,7 +228,10 @@ pub struct World {
     pub sessions: BTreeMap<usize, Session>,
     // fee oracle state
     pub fee_cache: Option<(usize, Vec<u64>)>,
-    pub fee_candidates: Vec<Vec<u64>>,
+    pub fee_candidates: Vec<(usize, Vec<u64>)>,
+    /// set when the canister advanced its anchor to a child the rule does not allow and the model
+    /// advanced to the child the rule names instead
+    pub reference_took_other_step: bool,
     pub last_fee_answer: Option<Vec<u64>>,
     pub send_tx_count: u64,
     // ---- bookkeeping ----
@@ -321,6 +324,7 @@ impl World {
             sessions: BTreeMap::new(),
             fee_cache: None,
             fee_candidates: vec![],
+            reference_took_other_step: false,
             last_fee_answer: None,
             send_tx_count: 0,
             stats: Stats::default(),
